@@ -440,31 +440,44 @@ func c08Streams(w *core.WorkerCtx) {
 // arithmetic overflow inside a walk.
 func c08InternalExits(w *core.WorkerCtx) {
 	rng := core.Rand(w.Seed, "C08i", w.Batch)
-	// (1) truncation: the first internal walk is abandoned when the cut vertex is found
-	{
-		desc := fmt.Sprintf("c08 truncation early exit seed=%d batch=%d", w.Seed, w.Batch)
+	// (1) truncation: the first internal walk is abandoned when the cut vertex is found. Two ledger depths: a few
+	// vertices below the cut, and more than a thousand below it; the deep one is truncated a second time after growing on
+	for _, size := range []int{1030, 2300} {
+		desc := fmt.Sprintf("c08 truncation early exit, ledger of %d vertices, seed=%d batch=%d", size, w.Seed, w.Batch)
 		w.Mark("%s", desc)
 		world := ledger.NewWorld(rng, w.R, []string{"C08"}, 0, desc)
 		_, err := ledger.Setup(world, ledger.Profile{Nodes: 1, Users: 4, SupplyClass: 0, Delivery: "lockstep"})
 		if err == nil {
 			e := &c08env{w: w, world: world, n: world.Nodes[0]}
-			for i := 0; i < 1030 && !e.dead; i++ {
-				e.grow(false)
+			world.Quiet = true
+			for i := 0; i < size && !e.dead; i++ {
+				t := world.NewTrx(world.Users[0], world.Users[1+i%3].Addr, spice.Melange{SupplementaryCurrency: uint64(1 + i%7)}, nil)
+				world.Propose(e.n, &t, "grow")
 			}
-			var terr error
-			e.watch("truncate", func() { terr = e.n.Book.VerifTruncate(context.Background()) })
-			if !e.dead {
-				e.o1("truncate", 1030, -2, errClass(terr))
+			rounds := 1
+			if size > 2000 {
+				rounds = 2
 			}
-			if !e.dead {
-				e.watch("CalculateBalance after truncate", func() { e.n.Book.CalculateBalance(context.Background(), world.Users[1].Addr) })
+			for round := 0; round < rounds && !e.dead; round++ {
+				var terr error
+				e.watch(fmt.Sprintf("truncate (ledger of %d vertices, round %d)", size, round), func() { terr = e.n.Book.VerifTruncate(context.Background()) })
+				if !e.dead {
+					e.o1("truncate", size, -2, errClass(terr))
+				}
+				if !e.dead {
+					e.watch("CalculateBalance after truncate", func() { e.n.Book.CalculateBalance(context.Background(), world.Users[1].Addr) })
+				}
+				if !e.dead {
+					e.grow(false)
+				}
+				w.R.Eval(1)
+				w.R.Count("c08_truncations", 1)
+				w.R.Nontriv(fmt.Sprintf("internal-exit/truncation-cut-found/size%d/round%d/%s", size, round, errClass(terr)))
+				for i := 0; i < 1100 && round+1 < rounds && !e.dead; i++ {
+					t := world.NewTrx(world.Users[0], world.Users[1+i%3].Addr, spice.Melange{SupplementaryCurrency: uint64(1 + i%7)}, nil)
+					world.Propose(e.n, &t, "grow")
+				}
 			}
-			if !e.dead {
-				e.grow(false)
-			}
-			w.R.Eval(1)
-			w.R.Count("c08_truncations", 1)
-			w.R.Nontriv("internal-exit/truncation-cut-found/" + errClass(terr))
 			if !e.dead {
 				world.Close()
 			}
